@@ -58,7 +58,7 @@ func (n *Node) Drain() [][]byte {
 // handed out many times, so that a later broadcast can still invalidate (displace) it - which Drain's
 // take-everything-at-once queue can never show.
 func NewKeeping(id uint64, a audit.Recorder) *Node {
-	b := &memberlist.TransmitLimitedQueue{RetransmitMult: 1000, NumNodes: func() int { return 1 }}
+	b := &memberlist.TransmitLimitedQueue{RetransmitMult: 1 << 20, NumNodes: func() int { return 1 }} // never retired by being looked at: only a later broadcast may displace one
 	return &Node{ID: id, Bcast: b, State: distributed.NewState(id, b, a), seen: map[string]bool{}}
 }
 
